@@ -32,7 +32,9 @@ type c27File struct {
 type c27Step struct {
 	Cfg     *c27File `json:"cfg,omitempty"`   // nil: leave the file as it is
 	Rules   *c27File `json:"rules,omitempty"` // nil: leave the file as it is
-	Trigger string   `json:"trigger"`         // timer pubsub badmsg burst gated
+	Trigger string   `json:"trigger"`         // timer pubsub badmsg burst gated lostupdate
+	Cfg2    *c27File `json:"cfg2,omitempty"`  // lostupdate: what the files hold when the second trigger arrives
+	Rules2  *c27File `json:"rules2,omitempty"`
 	N       int      `json:"n,omitempty"`     // burst size
 }
 type c27Input struct {
@@ -98,9 +100,24 @@ func c27Gen(r *rand.Rand, tier string, i int) any {
 		case x < 85:
 			st.Trigger = "burst"
 			st.N = 2 + r.Intn(5)
-		default:
+		case x < 92:
 			st.Trigger = "gated"
 			st.N = 2 + r.Intn(3)
+		default:
+			// reload A is held at the store, the files change again, trigger B arrives, A finishes
+			st.Trigger = "lostupdate"
+			st.Cfg = &c27File{Kind: "valid", K: r.Intn(3)}
+			if r.Intn(4) == 0 {
+				st.Cfg = c27GenFile(r, false)
+			}
+			if r.Intn(2) == 0 {
+				st.Cfg2 = &c27File{Kind: []string{"valid", "valid", "warn"}[r.Intn(3)], K: r.Intn(3)}
+			} else {
+				st.Rules2 = &c27File{Kind: "valid", K: r.Intn(6)}
+			}
+			if r.Intn(6) == 0 {
+				st.Cfg2 = c27GenFile(r, false)
+			}
 		}
 		in.Steps = append(in.Steps, st)
 	}
@@ -255,6 +272,7 @@ func c27Run(raw json.RawMessage) (Case, error) {
 			}
 		}
 		v := oracle()
+		v2 := verdict{term: "Unreadable"}
 		mu.Lock()
 		for l := range got {
 			got[l] = nil
@@ -263,6 +281,29 @@ func c27Run(raw json.RawMessage) (Case, error) {
 		kind, n := 0, 1
 		msg := time.Unix(1_700_000_000, 0).UTC().Format(time.RFC3339)
 		switch st.Trigger {
+		case "lostupdate":
+			kind, n = 4, 2
+			release, _ := config.VerifC27HoldConfigReadLock(cfg)
+			var wg sync.WaitGroup
+			wg.Add(1)
+			go func() { defer wg.Done(); cfg.Reload() }() // A: reads the first content, is held at the store if it applies it
+			time.Sleep(70 * time.Millisecond)
+			if st.Cfg2 != nil {
+				if err := write(cfgPath, *st.Cfg2, false); err != nil {
+					return Case{}, err
+				}
+			}
+			if st.Rules2 != nil {
+				if err := write(rulesPath, *st.Rules2, true); err != nil {
+					return Case{}, err
+				}
+			}
+			v2 = oracle()
+			wg.Add(1)
+			go func() { defer wg.Done(); cw.SubscriptionListener(context.Background(), msg) }() // B: arrives while A is in flight
+			time.Sleep(40 * time.Millisecond)
+			release()
+			wg.Wait()
 		case "timer":
 			cfg.Reload() // what ConfigWatcher.monitor does on every tick; its error is only logged
 		case "pubsub":
@@ -330,11 +371,15 @@ func c27Run(raw json.RawMessage) (Case, error) {
 			notes = append(notes, cq.ListN(ids))
 		}
 		mu.Unlock()
-		steps = append(steps, fmt.Sprintf("{| so_kind := %s; so_n := %s; so_src := %s; so_val := %s; so_hash := %s; so_notes := %s |}",
-			cq.N(uint64(kind)), cq.N(uint64(n)), v.term, cq.N(val), cq.N(hid), cq.List(notes)))
+		steps = append(steps, fmt.Sprintf("{| so_kind := %s; so_n := %s; so_src := %s; so_src2 := %s; so_val := %s; so_hash := %s; so_notes := %s |}",
+			cq.N(uint64(kind)), cq.N(uint64(n)), v.term, v2.term, cq.N(val), cq.N(hid), cq.List(notes)))
 		desc := "unreadable"
 		if v.readable {
 			desc = fmt.Sprintf("content#%d accepted=%v warnings=%v", v.id, v.acc, v.warn)
+		}
+		if st.Trigger == "lostupdate" {
+			desc += fmt.Sprintf(", then (while the first reload is in flight) content#%d accepted=%v", v2.id, v2.acc)
+			tags["file-change-while-reload-in-flight"] = true
 		}
 		human = append(human, fmt.Sprintf("%s x%d on %s -> running content#%d values#%d callbacks=%d", st.Trigger, n, desc, hid, val, total))
 		tags["trigger:"+st.Trigger] = true
